@@ -1,6 +1,107 @@
-(* C12: theorem statements are added when the corresponding Proofs file is merged. *)
+(* C12 priority: strict priority order, work conservation, query-only preemption.
+   Statements only; every proof is [exact <lemma of Proofs/PriorityFacts.v>]. Per scheduling round of the
+   model of eudoxia/scheduler/priority.py ([priority_step]), from every scheduler state, executor state,
+   result list and arrival list (both container modes: cf_multi). *)
 From Coq Require Import List ZArith QArith.
-From Eudoxia Require Import Model.Sched.
-Example C12_placeholder : ss_q init_sstate = nil.
-Proof. reflexivity. Qed.
-Print Assumptions C12_placeholder.
+Import ListNotations.
+From Eudoxia Require Import Model.Types Model.Lifecycle Model.Container Model.Pool Model.Executor Model.Sched
+  Proofs.ExecLifeFacts Proofs.PriorityFacts.
+Close Scope Q_scope.
+Close Scope Z_scope.
+
+(* strict priority order: the round's assignments are query, then interactive, then batch; if a query job is
+   still queued afterwards nothing of a lower class was assigned; likewise for interactive over batch *)
+Theorem C12_priority_order : forall C s e results newp s' w' susps asgs,
+  priority_step C s e results newp = Ok (s', w', susps, asgs) ->
+  exists a1 a2 a3,
+    asgs = a1 ++ a2 ++ a3 /\
+    (class_ok s -> Forall (fun a => a_prio a = Query) a1 /\ Forall (fun a => a_prio a = Interactive) a2 /\
+                   Forall (fun a => a_prio a = Batch) a3) /\
+    (ss_q s' <> [] -> a2 = [] /\ a3 = []) /\
+    (ss_i s' <> [] -> a3 = []).
+Proof. exact priority_order. Qed.
+Print Assumptions C12_priority_order.
+
+(* work conservation: if any job is still queued after the round, every pool has run out of free CPU or RAM
+   in the snapshot after this round's assignments *)
+Theorem C12_work_conserving : forall C s e results newp s' w' susps asgs,
+  priority_step C s e results newp = Ok (s', w', susps, asgs) ->
+  exists st3,
+    length st3 = length (snapshot e) /\
+    (forall i,
+       ps_acpu (nth i st3 dummy_stat) =
+         (ps_acpu (nth i (snapshot e) dummy_stat) - sumZ (map a_cpu (filter (on_pool i) asgs)))%Z /\
+       (ps_aram (nth i st3 dummy_stat) ==
+         ps_aram (nth i (snapshot e) dummy_stat) - sumQ (map a_ram (filter (on_pool i) asgs)))%Q) /\
+    (ss_q s' <> [] \/ ss_i s' <> [] \/ ss_b s' <> [] -> depleted st3).
+Proof. exact priority_work_conserving. Qed.
+Print Assumptions C12_work_conserving.
+
+(* equal priority: the class queue is FIFO — new jobs at the tail, a scanned prefix leaves, and the
+   assignments of a class are an order-preserving image of the scanned jobs *)
+Theorem C12_fifo : forall C s e results newp s' w' susps asgs,
+  priority_step C s e results newp = Ok (s', w', susps, asgs) ->
+  exists lq n a,
+    asgs = a Query ++ a Interactive ++ a Batch /\
+    forall p,
+      queue_of s' p = skipn (n p) (queue_of s p ++ filter (is_class p) (pr_jobs C s e results newp)
+                                   ++ filter (is_class p) lq) /\
+      scan_sub (firstn (n p) (queue_of s p ++ filter (is_class p) (pr_jobs C s e results newp)
+                              ++ filter (is_class p) lq)) (a p).
+Proof. exact priority_fifo. Qed.
+Print Assumptions C12_fifo.
+
+(* preemption: only running non-query containers at an operator boundary, only while a query job waits, at
+   most one per waiting query job, no container twice *)
+Theorem C12_suspend_rules : forall C s e results newp s' w' susps asgs,
+  priority_step C s e results newp = Ok (s', w', susps, asgs) ->
+  Forall (susp_ok (e_pools e)) susps /\
+  length susps <= length (ss_q s') /\
+  (ss_q s' = [] -> susps = []) /\
+  (NoDup (map c_id (flat_map p_active (e_pools e))) -> NoDup (map su_cid susps)).
+Proof. exact priority_suspend_rules. Qed.
+Print Assumptions C12_suspend_rules.
+
+(* work suspended this way is offered again once its suspension ends: in the first round that sees the
+   container in the suspended list a job with its unfinished operators is filed (exactly once) and is
+   assigned in that round, or stays queued, or is a failed-retry job *)
+Theorem C12_resume_offered : forall C s e results newp s' w' susps asgs p c,
+  priority_step C s e results newp = Ok (s', w', susps, asgs) ->
+  In p (e_pools e) -> In c (p_suspended p) -> ~ In (c_id c) (ss_requeued s) ->
+  In (c_id c) (ss_requeued s') /\
+  exists m p' c' j,
+    note_suspending_pools C (e_world e) (e_pools e) (ss_suspending s) = Ok m /\
+    In p' (e_pools e) /\ In c' (p_suspended p') /\ c_id c' = c_id c /\
+    (NoDup (map c_id (flat_map p_suspended (e_pools e))) -> c' = c) /\
+    (In (c_id c', j) m \/ noted_job C (e_world e) (p_id p') c' j) /\
+    ((exists a, In a asgs /\ a_ops a = j_ops j /\ a_prio a = j_prio j)
+     \/ In j (queue_of s' (j_prio j))
+     \/ retry_err j = true).
+Proof. exact priority_resume_offered. Qed.
+Print Assumptions C12_resume_offered.
+
+(* the round's batch is admissible for the executor: argument checks pass, pools exist, no pool is oversold *)
+Theorem C12_admissible : forall C s e results newp s' w' susps asgs,
+  priority_step C s e results newp = Ok (s', w', susps, asgs) ->
+  Forall args_ok asgs /\
+  mk_assignments C (e_world e) asgs = Ok w' /\
+  (forall a, In a asgs -> exists pid, a_pool a = Z.of_nat pid /\ pid < length (e_pools e)) /\
+  (Forall nonneg_pool (snapshot e) ->
+   forall i, (sumZ (map a_cpu (filter (on_pool i) asgs)) <= ps_acpu (nth i (snapshot e) dummy_stat))%Z /\
+             (sumQ (map a_ram (filter (on_pool i) asgs)) <= ps_aram (nth i (snapshot e) dummy_stat))%Q).
+Proof. exact priority_admissible. Qed.
+Print Assumptions C12_admissible.
+
+(* a fact about the code worth knowing (not a violation of C12, whose clauses speak of PENDING operators): a
+   failed retry whose doubled request does not fit the pool with most free RAM is dropped from the queue
+   without an assignment even if pools have room; its operators stay FAILED *)
+Theorem C12_retry_dropped : forall C w st j rest oom pid,
+  max_ram_pool st 0 None 0%Q = Some pid -> pr_nofit (nth pid st dummy_stat) j = true ->
+  pr_scan C w st (j :: rest) oom = bump_n (pr_scan C w st rest oom) None.
+Proof. exact pr_retry_dropped. Qed.
+Print Assumptions C12_retry_dropped.
+
+Example C12_witness : depleted [(0%Z, 4%Q, 8%Z, 8%Q); (3%Z, 0%Q, 8%Z, 8%Q)].
+Proof.
+  constructor; [left; apply Z.le_refl | constructor; [right; apply Qle_refl | constructor]].
+Qed.
